@@ -26,6 +26,9 @@ class PathP(Proxy):
     def __init__(self, level, extra=()):
         self.level, self.extra = level, tuple(extra)
 
+    def __bool__(self):
+        return True            # a path is a non-empty string
+
 
 class OsPath(object):
     @staticmethod
